@@ -100,6 +100,7 @@ recv(AXO + ":ResultGetKeysIqProtocolEntity",
      N("iq", {"type": CONST("result"), "from": SERVER, "id": ID},
        children=[N("list", {}, children=_distinct(_keys_user, _jid_in))]),
      owner="axolotl_send", module="axolotl", route="internal", request="GetKeysIqProtocolEntity",
+     numeric_tags=("id", "type", "registration"),
      notes="widths as in the class docstring (what the server sends): 4-byte registration, 1-byte type, 3-byte key ids; "
            "the unit-test fixture instead builds every integer with _intToBytes (4 bytes)")
 
@@ -130,7 +131,7 @@ send(AXO + ":EncProtocolEntity", [ENCTYPE, CONST(2), BLOB1, OPT(MEDIATYPE)], {"j
      owner="axolotl_send", module="axolotl", route="layer", name="EncProtocolEntity_send",
      notes="sendToContact / sendToGroupWithSessions; with jid the node is wrapped in <to jid=>")
 recv(AXO + ":EncryptedMessageProtocolEntity",
-     N("message", {"from": AJID, "id": ID, "t": TS, "type": WORD("text", "media"), "offline": FLAG,
+     N("message", {"from": AJID, "id": ID, "t": TS, "type": WORD("text", "media"), "offline": OPT(FLAG),
                    "notify": OPT(TEXT), "retry": OPT(COUNT), "participant": OPT(JID)},
        children=[CH(_ENC_SHAPE, 1, 2)]),
      owner="axolotl_receive", module="axolotl", route="internal",
@@ -227,7 +228,7 @@ exclude(CONTACTS + ":SyncIqProtocolEntity", "base class of the get/result sync i
 
 
 def _contact_notification(child, notify=True):
-    attrs = {"offline": FLAG, "id": ID, "type": CONST("contacts"), "t": TS, "from": JID}
+    attrs = {"offline": OPT(FLAG), "id": ID, "type": CONST("contacts"), "t": TS, "from": JID}
     if notify:
         attrs["notify"] = TEXT
     return N("notification", attrs, children=[child])
